@@ -1,4 +1,5 @@
 import NxProofs.PrudpPayload
+import NxProofs.CryptoAgree
 import NxProofs.PrudpChecked
 /-!
 # C08 — PRUDP bytes on the wire match the protocol specification
@@ -137,5 +138,25 @@ example : checkConnectionResponse (some 5) [4, 0, 0, 0, 5, 0, 0, 0] = .error .va
 example : v1SigKey.length = 15 := by decide
 example : DEFAULT_KEY = [67, 68, 38, 77, 76] := by decide
 example : (1 : Nat) < 16 ∧ (0 < (16 : Nat) ∧ (16 : Nat) ≤ 256) := by decide
+
+/-! ## the endpoint model signs with the reference
+
+The L1 endpoint model (`NxModel/Prudp/Conn.lean`, replayed byte- and tick-exactly against real sessions by C01/C02/C04–C07)
+gets its signature functions from `L1Crypto.lean`, written separately from `Sig.lean`. They are the same functions, so
+every datagram of every replayed session is also a datagram recomputed by this reference (the plan's tie (a)). -/
+
+theorem l1_signs_with_reference (v0 : V0Cfg) (p : Packet) (sk cs : Bytes) :
+    L1.packetSigFn v0 .v0 p sk cs = some (v0PacketSignature v0 p sk cs) ∧
+    L1.packetSigFn v0 .v1 p sk cs = some (v1PacketSignature v0.accessKey p sk cs) ∧
+    L1.packetSigFn v0 .lite p sk cs = litePacketSignature v0.accessKey p cs :=
+  L1.packetSigFn_agree v0 p sk cs
+
+theorem l1_connection_signatures_are_reference (a : L1.Addr) :
+    L1.connSigFn .v0 a = v0ConnectionSignature (L1.inetAton a.1) a.2 ∧
+    L1.connSigFn .v1 a = v1ConnectionSignature (L1.inetAton a.1) a.2 ∧
+    L1.connSigFn .lite a = liteConnectionSignature (L1.inetAton a.1) a.2 :=
+  ⟨rfl, rfl, rfl⟩
+
+theorem l1_unreliable_base_key_is_reference (key : Bytes) : L1.initUnreliableKey key = initUnreliableKey key := rfl
 
 end Nx.C08
